@@ -5,12 +5,14 @@
   eviction policy is an oracle carried by every operation, so "for all ops" below means "under every resolution of the
   nondeterminism").  Spec: `Inv`, `Limits`, `ReplacementOK` in the model file — the clauses of the property statement.
 
-  `Pool.step true`  = the code with the proposed one-line patch of demoteUnexecutables (cut at the FIRST missing nonce);
-  `Pool.step false` = the code as written at HEAD (only a gap in FRONT of a pending list is detected).  The full-strength
-  invariant theorems hold for the patched machine; for the machine as written the statement is false (`reset_gap_witness`,
-  reproduced against the real code) and holds on the histories in which no re-injection leaves a hole
-  (`inv_step_aswritten_partial`, `inv_reachable_aswritten_partial`).  Sequential semantics under `pool.mu` only: data
-  races are not expressible in this model (they are exercised by the harness with the race detector).
+  `Pool.step true`  = the code at HEAD (since commit c2af732 demoteUnexecutables postpones everything from the FIRST missing
+  nonce on).  `inv_step` / `inv_reachable` are the full-strength invariant theorems for it.
+  `Pool.step false` = the demotion before c2af732 (only a gap in FRONT of a pending list was detected), kept as
+  documentation of the defect this property check found: `pre_c2af732_reset_gap_witness` (the statement was false,
+  reproduced against the real code at the time) and `pre_c2af732_inv_step_partial` (it held on the histories in which no
+  re-injection left a hole).  Likewise `removeTxG false` / `prefix_removeTx_witness` document the defect fixed by f30bc16.
+  Sequential semantics under `pool.mu` only: data races are not expressible in this model (they are exercised by the
+  harness with the race detector).
 -/
 import Aqv.Lemmas.TxPoolReorg
 namespace Aqv.Props.C15
@@ -124,7 +126,7 @@ theorem good_init (c : Cfg) (v : View) : Good (Pool.init c v) ∧ AllOK (Pool.in
 theorem inv_init (c : Cfg) (v : View) : Inv (Pool.init c v) := good_inv (good_init c v).1
 
 /-- Every operation — local/remote add, batch add, SetGasPrice, reset with re-injection, idle eviction — under every
-    resolution of the eviction nondeterminism keeps the inductive invariant (patched demotion). -/
+    resolution of the eviction nondeterminism keeps the inductive invariant — the code at HEAD. -/
 theorem inv_step (s : Pool) (op : Op) (h : Good s) : Good (s.step true op) ∧ Inv (s.step true op) := by
   have : Good (s.step true op) := by
     cases op with
@@ -146,11 +148,11 @@ theorem good_reachable (c : Cfg) (v : View) (ops : List Op) : Good (ops.foldl (P
     | cons op rest ih => intro s h; exact ih _ (inv_step s op h).1
   exact this ops _ (good_init c v).1
 
-/-- The state clauses of the property hold in every state reachable by any sequence of operations (patched demotion). -/
+/-- The state clauses of the property hold in every state reachable by any sequence of operations — the code at HEAD. -/
 theorem inv_reachable (c : Cfg) (v : View) (ops : List Op) : Inv (ops.foldl (Pool.step true) (Pool.init c v)) :=
   good_inv (good_reachable c v ops)
 
-/-! ### the code as written -/
+/-! ### the demotion before commit c2af732 (documentation of the defect that commit fixed) -/
 
 def wCfg : Cfg := ⟨1, 10, 16, 4096, 64, 1024, false, 21000⟩
 def wView2 : View := ⟨fun _ => 2, fun _ => 1000000000, 100000⟩
@@ -161,27 +163,27 @@ def w0 : Pool := (((Pool.init wCfg wView2).step false (.setGasPrice 3)).step fal
 /-- the chain reorganises to a branch on which nonces 0 (price 5) and 1 (price 1) are not included -/
 def w1 : Pool := w0.step false (.reset wView0 1 1 true [⟨0,0,5,21000,100⟩, ⟨0,1,1,21000,100⟩] [] wOracle)
 
-/-- The code as written falsifies the first clause: after this reset the pending list of sender 0 is [0, 2] — nonce 1 was
+/-- Before c2af732 the first clause was false: after this reset the pending list of sender 0 is [0, 2] — nonce 1 was
     refused on re-injection (below the price floor), nonce 0 was promoted in front of the old pending nonce 2, and
-    demoteUnexecutables only looks for a gap in FRONT of the list. (Reproduced against the real pool: corpus
-    `02-reinject-hole.json`.) -/
-theorem reset_gap_witness : ¬ Inv w1 := by
+    demoteUnexecutables only looked for a gap in FRONT of the list. (Reproduced against the real pool at the time; the
+    history is kept as regression seed `corpus/C15/02-reinject-hole.json`.) -/
+theorem pre_c2af732_reset_gap_witness : ¬ Inv w1 := by
   intro h
   have := h.run 0
   revert this
   decide
 
-/-- the same history on the patched machine satisfies the property -/
+/-- the same history on the code at HEAD satisfies the property -/
 example : IsRun ((w0.step true (.reset wView0 1 1 true [⟨0,0,5,21000,100⟩, ⟨0,1,1,21000,100⟩] [] wOracle)).cnonce 0)
     ((w0.step true (.reset wView0 1 1 true [⟨0,0,5,21000,100⟩, ⟨0,1,1,21000,100⟩] [] wOracle)).pending 0).items := by decide
 
-/-- a reset is admissible for the code as written when the re-injection leaves no hole in any pending list -/
+/-- a reset was admissible for the pre-c2af732 demotion when the re-injection left no hole in any pending list -/
 def OpOK (s : Pool) : Op → Prop
   | .reset v o n r d i orc => NoHole (s.resetMid v o n r d i orc)
   | _ => True
 
-/-- `inv_step` for the code as written, with the excluded set explicit: resets whose re-injection phase leaves a hole. -/
-theorem inv_step_aswritten_partial (s : Pool) (op : Op) (h : Good s) (hop : OpOK s op) :
+/-- `inv_step` for the pre-c2af732 demotion, with the excluded set explicit: resets whose re-injection phase leaves a hole. -/
+theorem pre_c2af732_inv_step_partial (s : Pool) (op : Op) (h : Good s) (hop : OpOK s op) :
     Good (s.step false op) ∧ Inv (s.step false op) := by
   have : s.step false op = s.step true op := by
     cases op with
@@ -207,14 +209,14 @@ def RunOK : Pool → List Op → Prop
   | _, [] => True
   | s, op :: ops => OpOK s op ∧ RunOK (s.step false op) ops
 
-/-- `inv_reachable` for the code as written on the histories without a re-injection hole. -/
-theorem inv_reachable_aswritten_partial (c : Cfg) (v : View) (ops : List Op) (h : RunOK (Pool.init c v) ops) :
+/-- `inv_reachable` for the pre-c2af732 demotion on the histories without a re-injection hole. -/
+theorem pre_c2af732_inv_reachable_partial (c : Cfg) (v : View) (ops : List Op) (h : RunOK (Pool.init c v) ops) :
     Inv (ops.foldl (Pool.step false) (Pool.init c v)) := by
   have : ∀ (ops : List Op) (s : Pool), Good s → RunOK s ops → Good (ops.foldl (Pool.step false) s) := by
     intro ops
     induction ops with
     | nil => intro s h _; exact h
-    | cons op rest ih => intro s h hr; exact ih _ (inv_step_aswritten_partial s op h hr.1).1 hr.2
+    | cons op rest ih => intro s h hr; exact ih _ (pre_c2af732_inv_step_partial s op h hr.1).1 hr.2
   exact good_inv (this ops _ (good_init c v).1 h)
 
 example : RunOK (Pool.init wCfg wView0) [.add ⟨0,0,5,21000,100⟩ false .wellformed [] [] [], .setGasPrice 3] := ⟨trivial, trivial, trivial⟩
@@ -312,13 +314,13 @@ example : Good q0 ∧ AllOK q0 ∧ (0 : Addr) ∈ q0.locals ∧
 /-! ## limits -/
 
 /-- Every reset ends with the pool-wide enforcement: afterwards the per-account queue cap, the pool-wide queue cap and the
-    pending-slot bound hold for non-local senders, under every eviction oracle (patched demotion). -/
+    pending-slot bound hold for non-local senders, under every eviction oracle — the code at HEAD. -/
 theorem limits_after_reset (s : Pool) (v : View) (o n : Nat) (r : Bool) (d i : List Tx) (orc : ResetOracle)
     (h : Good s) (ha : AllOK s) : Limits (s.step true (.reset v o n r d i orc)) :=
   (limits_after_reset_true s v o n r d i orc ⟨h, ha⟩).1
 
-/-- the same for the code as written on admissible resets -/
-theorem limits_after_reset_aswritten_partial (s : Pool) (v : View) (o n : Nat) (r : Bool) (d i : List Tx) (orc : ResetOracle)
+/-- the same for the pre-c2af732 demotion on admissible resets -/
+theorem pre_c2af732_limits_after_reset_partial (s : Pool) (v : View) (o n : Nat) (r : Bool) (d i : List Tx) (orc : ResetOracle)
     (h : Good s) (ha : AllOK s) (hop : OpOK s (.reset v o n r d i orc)) : Limits (s.step false (.reset v o n r d i orc)) := by
   have : s.step false (.reset v o n r d i orc) = s.step true (.reset v o n r d i orc) := reset_agree s v o n r d i orc h hop
   rw [this]; exact limits_after_reset s v o n r d i orc h ha
